@@ -800,8 +800,9 @@ func (vfs *OrefaFS) Rename(oldname, newname string) error {
 
 	oIsDir := oChild.mode.IsDir()
 
-	if oIsDir && strings.HasPrefix(nAbsPath, oAbsPath+string(vfs.PathSeparator())) {
-		// A directory can't be moved to a subdirectory of itself.
+	if oIsDir && !(nChildOk && nChild.mode.IsDir()) && strings.HasPrefix(nAbsPath, oAbsPath+string(vfs.PathSeparator())) {
+		// A directory can't be moved to a subdirectory of itself
+		// (an existing directory as newname is reported first, see below).
 		err := vfs.err.InvalidArgument
 		if vfs.OSType() == avfs.OsWindows {
 			err = avfs.ErrWinAccessDenied
